@@ -133,6 +133,21 @@ P = {
 PENDING = "check under construction in this round (see DESIGN.md section 3 for the planned monitor)"
 
 
+def workload_rule(pid):
+    """the check's own description of its workload (info(tier)['rule']), so that the manifest never lags behind the code"""
+    import importlib
+    import sys
+
+    for d in (HERE, "/repo/src", os.path.join(HERE, ".deps")):
+        if d not in sys.path:
+            sys.path.insert(0, d)
+    try:
+        mod = importlib.import_module(f"vmon.props.{pid.lower()}")
+        return " Workload as built (the check's own rule, quick tier): " + " ".join(str(mod.info("quick")["rule"]).split())
+    except Exception as ex:  # the manifest must stay valid even if a module cannot be imported here
+        return ""
+
+
 def main():
     checks = []
     na = []
@@ -148,7 +163,7 @@ def main():
                     "evidence_file": f"/verif/evidence/{pid}.json",
                     "replay_cmd_template": f"./check {pid} --replay {{path}}",
                     "engine": "vmon",
-                    "level_claimed": {"category": p["level"], "text": p["text"], "design_ref": "DESIGN.md section " + p["ref"]},
+                    "level_claimed": {"category": p["level"], "text": p["text"] + workload_rule(pid), "design_ref": "DESIGN.md section " + p["ref"]},
                     "level_note": p.get("note", TB),
                     "technique": p["technique"],
                 }
